@@ -7,6 +7,7 @@ import (
 	"encoding/binary"
 	"encoding/hex"
 	"fmt"
+	"github.com/mandykoh/prism/meta"
 	"io"
 	"reflect"
 	"sync"
@@ -55,6 +56,25 @@ func checkBatch(c Case) (kind, what string) {
 		p, err := icc.NewProfileReader(bytes.NewReader(data)).ReadProfile()
 		if err == nil {
 			items = append(items, item{data, p.Header, hx})
+		}
+	}
+	// the same headers through ONE metadata value whose profile bytes are replaced each time: the parsed profile
+	// must follow the bytes the value carries now
+	md := &meta.Data{}
+	for _, hx := range c.Batch {
+		raw, _ := hex.DecodeString(hx)
+		var h [128]byte
+		copy(h[:], raw)
+		data := profileWith(h)
+		want, werr := icc.NewProfileReader(bytes.NewReader(data)).ReadProfile()
+		md.SetICCProfileData(data)
+		var got *icc.Profile
+		var gerr error
+		if pn, msg := ev.Guard(func() { got, gerr = md.ICCProfile() }); pn {
+			return "panic", msg
+		}
+		if (werr == nil) != (gerr == nil) || (werr == nil && !reflect.DeepEqual(want.Header, got.Header)) {
+			return "metadata-reuse", fmt.Sprintf("a metadata value given the profile with header %s returns %+v / %v from ICCProfile(); parsing those bytes directly gives %+v / %v (the value carried other profiles before)", hx, got, gerr, want, werr)
 		}
 	}
 	if len(items) == 0 {
